@@ -72,7 +72,7 @@ theorem RaftStatic.of_resetFrame {voters : List Id} {n : Nat} {s s' : Raft} (h :
   have hg : ∀ v, s'.trk.getProgress v = (s.trk.getProgress v).map (f v) := fun v => by
     unfold Tracker.getProgress mapGet
     rw [hf2, app_lookup_map_keys]
-  refine ⟨by rw [h1]; exact h.id, h.idnz, by rw [h1]; exact h.pv, by rw [h1]; exact h.cq, h2,
+  refine ⟨by rw [h1]; exact h.id, h.idnz, by rw [h1]; exact h.pv, h2,
     h3.trans h.pri, h4, by rw [h5]; exact h.tvoters, by rw [h5]; exact h.tout, by rw [h5]; exact h.tauto,
     fun v => by rw [hg, Option.isSome_map]; exact h.prog v, ?_, h.self⟩
   intro v pr hp
